@@ -143,7 +143,7 @@ def main():
         t0 = time.time()
         try:
             open(p, "w").write("\n".join(lines))
-            rc, o = sh("cargo test --offline --lib 2>&1 | tail -5; exit ${PIPESTATUS[0]}", cwd=repo, timeout=240)
+            rc, o = sh("cargo test --offline --lib 2>&1 | tail -5; exit ${PIPESTATUS[0]}", cwd=repo, timeout=120)
             if rc != 0:
                 rec["status"] = "compile_error" if ("error[" in o or "error:" in o and "test result" not in o) and "test result" not in o else "killed_by_suite"
                 if rc == 124: rec["status"] = "suite_timeout"
@@ -155,7 +155,7 @@ def main():
                     rec["status"] = "survived_all_checks"
                     rec["checks"] = {}
                     for c in ORDER:
-                        rc3, o3 = sh(f"./check {c} quick 2>&1 | tail -4", cwd=VERIF, timeout=900)
+                        rc3, o3 = sh(f"./check {c} quick 2>&1 | tail -4", cwd=VERIF, timeout=600)
                         # exit code of the pipeline is tail's; read the verdict line instead
                         verdict = "OK" if "\nOK property=" in "\n" + o3 else ("VIOLATION" if "VIOLATION property=" in o3 else ("INCONCLUSIVE" if "INCONCLUSIVE" in o3 else "OTHER"))
                         rec["checks"][c] = verdict
